@@ -1,5 +1,5 @@
 // Adaptor binding Buf.tla: one Go-supplied, guard-byte-surrounded buffer with a fixed family of views.
-var VIEWDEF = [["u8",0,8],["u8",2,4],["i8",1,3],["u16",2,2],["i16",0,4],["u32",4,1],["u8c",3,2],["f64",0,1],["f32",4,1],["u16",4,1],["i8",2,2]];
+var VIEWDEF = [["u8",0,8],["u8",2,4],["i8",1,3],["u16",2,2],["i16",0,4],["u32",4,1],["u8c",3,2],["f64",0,1],["f32",4,1],["u16",4,1],["i8",2,2],["i16",2,3]];
 var CT = {u8: Uint8Array, i8: Int8Array, u8c: Uint8ClampedArray, u16: Uint16Array, i16: Int16Array, u32: Uint32Array, f32: Float32Array, f64: Float64Array};
 var ESZ = {u8: 1, i8: 1, u8c: 1, u16: 2, i16: 2, u32: 4, f32: 4, f64: 8};
 var BUF, TA, DVW, NOPS;
@@ -38,6 +38,16 @@ function step(l) {
     case "reverse": if (t.reverse() !== t) throw new Error("reverse must return the array"); res = "ok"; break;
     case "sort": if (t.sort() !== t) throw new Error("sort must return the array"); res = "ok"; break;
     case "slice": res = {r: "ok", bytes: rawBytes(l.e === 99 ? t.slice(l.s) : t.slice(l.s, l.e))}; break;
+    case "sliceSpecies":
+      var tgt = TA[l.w - 1];
+      Object.defineProperty(t, "constructor", {value: {}, configurable: true});
+      t.constructor[Symbol.species] = function() { return tgt; };
+      try {
+        var sr = l.e === 99 ? t.slice(l.s) : t.slice(l.s, l.e);
+        if (sr !== tgt) throw new Error("slice must return what the species constructor returned");
+        res = "ok";
+      } finally { delete t.constructor; }
+      break;
     case "subarray":
       var sa = l.e === 99 ? t.subarray(l.s) : t.subarray(l.s, l.e);
       if (sa.buffer !== BUF) throw new Error("subarray must share the buffer");
